@@ -29,6 +29,7 @@ type FuncContract struct {
 	Pkg       string // package path the block belongs to ("" for trusted files: name is fully qualified)
 	Requires  []Clause
 	Ensures   []Clause
+	CallbacksKeep []Clause // locations every open-world call made by this function is ASSUMED to leave unchanged (the object's own private state)
 	GhostSets []GhostSet // "ghostset g E": calling the function sets ghost g to E (evaluated in the pre-state)
 	AtReturn  []Clause // checked at every return with the function's local variables in scope; not visible to callers
 	Modifies  []Clause
@@ -121,7 +122,7 @@ type GlobalFact struct {
 }
 
 var clauseKeywords = map[string]bool{
-	"func": true, "requires": true, "ensures": true, "atreturn": true, "ghostset": true, "modifies": true, "preserves": true, "refinedby": true, "monitor": true, "protects": true, "strict": true, "track": true, "before": true, "panics": true, "maypanic": true, "nopanic": true,
+	"func": true, "requires": true, "ensures": true, "atreturn": true, "ghostset": true, "modifies": true, "preserves": true, "callbackskeep": true, "refinedby": true, "monitor": true, "protects": true, "strict": true, "track": true, "before": true, "panics": true, "maypanic": true, "nopanic": true,
 	"loop": true, "invariant": true, "decreases": true, "spec": true, "lemma": true, "induct": true,
 	"smt": true, "smtlate": true, "closed": true, "neversent": true, "chaninv": true, "immutableheap": true, "fieldinv": true, "inline": true, "sort": true, "global": true, "package": true, "ghost": true, "type": true, "trusted": true, "props": true, "use": true, "hdruse": true, "assert": true, "axiom": true, "pattern": true, "opaque": true,
 }
@@ -385,6 +386,17 @@ func (cs *Contracts) loadContractFile(path string, pkg string, goFile bool) erro
 					return err
 				}
 				curF.Preserves = append(curF.Preserves, c)
+			}
+		case "callbackskeep":
+			if curF == nil {
+				return fmt.Errorf("%s:%d: callbackskeep outside func", path, l.no)
+			}
+			for _, part := range splitTopLevel(rest, ',') {
+				c, err := mk(part, l.no)
+				if err != nil {
+					return err
+				}
+				curF.CallbacksKeep = append(curF.CallbacksKeep, c)
 			}
 		case "refinedby":
 			if curF == nil {
